@@ -20,8 +20,8 @@ def runScript (read : Read) (l : Lexer) (ops : List String) : List String :=
     | [] => acc.reverse
     | op :: rest =>
       if op == "S" then let l := l.start read; go rest l laEnd (fmtState l :: acc)
-      else if op == "A" then let l := if l.eof && !l.chunk.isEmpty then l else l.advance read false; go rest l laEnd (fmtState l :: acc)
-      else if op == "K" then let l := if l.eof && !l.chunk.isEmpty then l else l.advance read true; go rest l laEnd (fmtState l :: acc)
+      else if op == "A" then let l := l.advance read false; go rest l laEnd (fmtState l :: acc)
+      else if op == "K" then let l := l.advance read true; go rest l laEnd (fmtState l :: acc)
       else if op == "M" then let l := l.markEnd; go rest l laEnd (fmtState l :: acc)
       else if op == "F" then
         let (l, e) := l.finish laEnd
